@@ -98,7 +98,10 @@ def emit(ops, spec_includes, preamble=""):
 
 def jobs(ctx, ops, spec_includes, prefix, variant="plain", defines=(), big_endian=False, preamble="", ub_checks=False):
     inc = header_variant(ctx, variant)
-    d = os.path.dirname(ctx.path("rlayer", prefix.replace("/", "_"), "x"))
+    # one harness file per call: two calls with the same prefix (different operation lists) must not overwrite each other
+    import hashlib as _hl
+    key = prefix.replace("/", "_") + "-" + _hl.sha1(("|".join(o.name for o in ops) + variant + "|".join(defines)).encode()).hexdigest()[:8]
+    d = os.path.dirname(ctx.path("rlayer", key, "x"))
     path = os.path.join(d, "r.c")
     with open(path, "w") as f:
         f.write(emit(ops, spec_includes, preamble))
